@@ -820,5 +820,83 @@ pub open spec fn spec_challenge<C: Ciphersuite>(r: Element<C>, vk: Element<C>, m
 pub open spec fn spec_verify_prehashed<C: Ciphersuite>(vk: Element<C>, c: Scalar<C>, sig: Signature<C>) -> Result<(), Error<C>>
 { if emul::<C>(esub::<C>(esub::<C>(gmul::<C>(sig.z), emul::<C>(vk, c)), sig.R), GG::<C>::s_cofactor()) == e0::<C>() { Ok(()) } else { Err(Error::InvalidSignature) } }
 
+
+// ---- the signing session described by a signing package and a group key (RFC 9591 5.2 / 5.3) ----
+pub open spec fn sp_items<C: Ciphersuite>(sp: SigningPackage<C>) -> Seq<(Identifier<C>, crate::round1::SigningCommitments<C>)> { commit_items::<C>(sp.signing_commitments@) }
+pub open spec fn sp_rho<C: Ciphersuite>(sp: SigningPackage<C>, vk: Element<C>, id: Identifier<C>) -> Scalar<C>
+{ spec_binding_factor::<C>(vk, sp.message@, sp_items::<C>(sp), Seq::<u8>::empty(), id) }
+pub open spec fn sp_rho_map<C: Ciphersuite>(sp: SigningPackage<C>, vk: Element<C>) -> Map<Identifier<C>, BindingFactor<C>>
+{ Map::new(sp.signing_commitments@.dom(), |id: Identifier<C>| BindingFactor::<C>(sp_rho::<C>(sp, vk, id))) }
+pub open spec fn sp_R<C: Ciphersuite>(sp: SigningPackage<C>, vk: Element<C>) -> Element<C> { spec_group_commitment::<C>(sp_items::<C>(sp), sp_rho_map::<C>(sp, vk)) }
+pub open spec fn sp_lambda<C: Ciphersuite>(sp: SigningPackage<C>, id: Identifier<C>) -> Scalar<C> { spec_lagrange::<C>(sorted_seq(sp.signing_commitments@.dom()), None, id) }
+// error of the session itself (identity key or commitment, identity group commitment), if any
+pub open spec fn sp_session_err<C: Ciphersuite>(sp: SigningPackage<C>, vk: Element<C>) -> Option<Error<C>> {
+    if vk == e0::<C>() || items_have_identity::<C>(sp_items::<C>(sp)) { Some(Error::GroupError(GroupError::InvalidIdentityElement)) }
+    else if sp_R::<C>(sp, vk) == e0::<C>() { Some(Error::GroupError(GroupError::InvalidIdentityElement)) }
+    else { None }
+}
+pub open spec fn sp_c<C: Ciphersuite>(sp: SigningPackage<C>, vk: Element<C>) -> Scalar<C> { C::spec_H2(enc_el::<C>(sp_R::<C>(sp, vk)) + enc_el::<C>(vk) + sp.message@) }
+
+// RFC 9591 5.2 sign, with the refusals of the implementation in guard order (default world)
+pub open spec fn spec_sign<C: Ciphersuite>(sp: SigningPackage<C>, sn: crate::round1::SigningNonces<C>, kp: crate::keys::KeyPackage<C>) -> Result<crate::round2::SignatureShare<C>, Error<C>> {
+    let vk = kp.verifying_key.element.0;
+    if sp.signing_commitments@.dom().len() < kp.min_signers { Err(Error::IncorrectNumberOfCommitments) }
+    else if !sp.signing_commitments@.contains_key(kp.identifier) { Err(Error::MissingCommitment) }
+    else if sn.commitments != sp.signing_commitments@[kp.identifier] { Err(Error::IncorrectCommitment) }
+    else if sp_session_err::<C>(sp, vk) is Some { Err(sp_session_err::<C>(sp, vk)->Some_0) }
+    else { Ok(crate::round2::SignatureShare::<C> { header: default_header::<C>(), share: crate::serialization::SerializableScalar(
+        spec_sig_share::<C>(sn.hiding.0.0, sn.binding.0.0, sp_rho::<C>(sp, vk, kp.identifier), sp_lambda::<C>(sp, kp.identifier), kp.signing_share.0.0, sp_c::<C>(sp, vk))) }) }
+}
+
+pub proof fn lemma_rho_map<C: Ciphersuite>(sp: SigningPackage<C>, vk: Element<C>, extra: Seq<u8>, bf: Map<Identifier<C>, BindingFactor<C>>)
+    requires extra.len() == 0, bf.dom() == sp.signing_commitments@.dom(),
+        forall|id: Identifier<C>| sp.signing_commitments@.contains_key(id) ==> (#[trigger] bf[id]).0 == spec_binding_factor::<C>(vk, sp.message@, sp_items::<C>(sp), extra, id)
+    ensures bf == sp_rho_map::<C>(sp, vk)
+{
+    assert(extra =~= Seq::<u8>::empty());
+    assert(bf =~= sp_rho_map::<C>(sp, vk)) by {
+        assert forall|id: Identifier<C>| bf.dom().contains(id) implies #[trigger] bf[id] == sp_rho_map::<C>(sp, vk)[id] by { assert(bf[id].0 == sp_rho::<C>(sp, vk, id)); }
+    }
+}
+
+
+// ---- share verification and cheater detection (RFC 9591 5.3) ----
+// the check of signer `id`'s share z in the session (sp, vk) against its verifying share y (default world)
+pub open spec fn sp_share_ok<C: Ciphersuite>(sp: SigningPackage<C>, bf: Map<Identifier<C>, BindingFactor<C>>, id: Identifier<C>, z: Scalar<C>, y: Element<C>, c: Scalar<C>) -> bool {
+    spec_sigshare_ok::<C>(z, eadd::<C>(sp.signing_commitments@[id].hiding.0.0, emul::<C>(sp.signing_commitments@[id].binding.0.0, bf[id].0)), y, sp_lambda::<C>(sp, id), c)
+}
+
+// identifiers (in the given ascending order, first n) whose share fails the check
+pub open spec fn spec_culprits<C: Ciphersuite>(keys: Seq<Identifier<C>>, sp: SigningPackage<C>, bf: Map<Identifier<C>, BindingFactor<C>>,
+        shares: Map<Identifier<C>, crate::round2::SignatureShare<C>>, ys: Map<Identifier<C>, crate::keys::VerifyingShare<C>>, c: Scalar<C>, n: int) -> Seq<Identifier<C>> decreases n
+{
+    if n <= 0 { Seq::empty() } else {
+        let r = spec_culprits::<C>(keys, sp, bf, shares, ys, c, n - 1);
+        if sp_share_ok::<C>(sp, bf, keys[n - 1], shares[keys[n - 1]].share.0, ys[keys[n - 1]].0.0, c) { r } else { r.push(keys[n - 1]) }
+    }
+}
+
+pub proof fn lemma_culprits_empty_prefix<C: Ciphersuite>(keys: Seq<Identifier<C>>, sp: SigningPackage<C>, bf: Map<Identifier<C>, BindingFactor<C>>,
+        shares: Map<Identifier<C>, crate::round2::SignatureShare<C>>, ys: Map<Identifier<C>, crate::keys::VerifyingShare<C>>, c: Scalar<C>, n: int)
+    requires 0 <= n <= keys.len(), forall|k: int| 0 <= k < n ==> sp_share_ok::<C>(sp, bf, #[trigger] keys[k], shares[keys[k]].share.0, ys[keys[k]].0.0, c)
+    ensures spec_culprits::<C>(keys, sp, bf, shares, ys, c, n).len() == 0
+    decreases n
+{ if n > 0 { lemma_culprits_empty_prefix::<C>(keys, sp, bf, shares, ys, c, n - 1); } }
+
+
+pub proof fn lemma_culprits_prefix<C: Ciphersuite>(keys: Seq<Identifier<C>>, sp: SigningPackage<C>, bf: Map<Identifier<C>, BindingFactor<C>>,
+        shares: Map<Identifier<C>, crate::round2::SignatureShare<C>>, ys: Map<Identifier<C>, crate::keys::VerifyingShare<C>>, c: Scalar<C>, m: int, n: int)
+    requires 0 <= m <= n
+    ensures spec_culprits::<C>(keys, sp, bf, shares, ys, c, m).is_prefix_of(spec_culprits::<C>(keys, sp, bf, shares, ys, c, n))
+    decreases n - m
+{
+    if m < n {
+        lemma_culprits_prefix::<C>(keys, sp, bf, shares, ys, c, m, n - 1);
+        let a = spec_culprits::<C>(keys, sp, bf, shares, ys, c, m); let b = spec_culprits::<C>(keys, sp, bf, shares, ys, c, n - 1); let d = spec_culprits::<C>(keys, sp, bf, shares, ys, c, n);
+        assert(b.is_prefix_of(d)) by { assert(d =~= b || d =~= b.push(keys[n - 1])); }
+        assert(a.is_prefix_of(d)) by { assert(a.len() <= b.len() <= d.len()); assert forall|i: int| 0 <= i < a.len() implies a[i] == d[i] by { assert(a[i] == b[i]); assert(b[i] == d[i]); } }
+    }
+}
+
 } // verus!
 }
